@@ -272,6 +272,27 @@ func checkEvalProp(spec *propSpec, seed uint64, replayDir, corpusDir string) (ma
 		}
 		frag["samples"] = tot.samples
 	}
+	if spec.id == "C03" {
+		// key lists on keys that are not valid UTF-8 (a relation between two runs of the real code)
+		n, dis := byteKeyCheck(seed, 4000*tierScale())
+		nViol += reportUnitDisagreements(spec.id, dis, replayDir)
+		frag["x_byte_key_cases"] = n
+		if ev, ok := frag["evaluations"].(int); ok {
+			frag["evaluations"] = ev + n
+		}
+	}
+	if spec.id == "C18" {
+		// the same conversions in a 32-bit build of the library
+		n, dis, note := arch32Check(seed, 20000*tierScale())
+		nViol += reportUnitDisagreements(spec.id, dis, replayDir)
+		frag["x_arch32_operands_compared"] = n
+		if note != "" {
+			frag["x_arch32_note"] = note
+		}
+		if ev, ok := frag["evaluations"].(int); ok {
+			frag["evaluations"] = ev + n
+		}
+	}
 	return frag, nViol
 }
 
